@@ -91,15 +91,20 @@ def btInsert (k : Str) (v : Match) : List (Str × Match) → List (Str × Match)
     else if k < k' then (k, v) :: (k', v') :: r
     else (k', v') :: btInsert k v r
 
+inductive OpsOut where
+  | ok (deps : List Str) (ops : List (Str × Match))
+  | err
+  | panic
+
 /-- the operand loop of `compile_into` (in the `HashMap`'s iteration order) -/
-def compileOps (x : Ext) : List (Str × Str) → List Str → List (Str × Match) →
-    Option (List Str × List (Str × Match))
-  | [], deps, ops => some (deps, ops)
+def compileOps (x : Ext) : List (Str × Str) → List Str → List (Str × Match) → OpsOut
+  | [], deps, ops => .ok deps ops
   | (operand, s) :: rest, deps, ops =>
-    if !startsWith operand ['$'] then none
+    if !startsWith operand ['$'] then .err
     else match parseMatch x s with
-      | none => none
-      | some m =>
+      | .panic => .panic
+      | .err => .err
+      | .ok m =>
         let deps' := match m with
           | .rule n => if deps.contains n then deps else deps ++ [n]
           | _ => deps
@@ -126,8 +131,9 @@ def compileInto (x : Ext) (r : Rule) : CompileOut :=
     | none => .err
     | some attack =>
       match compileOps x (r.mats.getD []) [] [] with
-      | none => .err
-      | some (deps, ops) =>
+      | .err => .err
+      | .panic => .panic
+      | .ok deps ops =>
         .ok { name := r.name, rtype := r.rtype.getD .detection, depends := deps, tags := tags, attack := attack,
               includeEvents := buildInclude filters, excludeEvents := buildExclude filters,
               ops := ops, cond := cond, severity := boundSeverity (r.severity.getD 0),
